@@ -7,7 +7,7 @@
    in the signal lists of every critical section, and in the discipline (Broadcast discipline: theorems
    `mon_parked_not_enabled`, `mon_pending_wake`, `mon_no_lost_wakeup`; Signal/cascade discipline:
    `mon_cascade_pending_wake`, `mon_no_lost_wakeup_cascade` — also fully generic, NOT restricted to a
-   counter/length shape).
+   counter/length shape).  The cancellation half and the cascade theorems carry the guard described below.
 
    MODEL.  state = (dat, lock : option tid, thr : tid -> tstate, ended : tid -> bool, helper : tid -> bool,
    pendingB : list cond).
@@ -55,9 +55,20 @@
                                          contains `Broadcast c`;
      `cascade_discipline Data prog c W`  all waiters on c have wake predicate W, and every body that turns W
                                          false->true contains `Signal c` or `Broadcast c`.
-   Theorems: mon_mutex, mon_safety, mon_already_true_no_block, mon_parked_not_enabled, mon_pending_wake,
-   mon_no_lost_wakeup, mon_ctx_pending_wake_locked, mon_ctx_pending_wake_norace, mon_no_lost_cancel,
-   mon_cascade_pending_wake_locked / _norace, mon_no_lost_wakeup_cascade_locked / _norace.  *)
+   Theorems (all for `reach ok s` with an arbitrary step filter `ok`, hence in particular for `reachable s`):
+     mon_mutex                    InCrit/Parking <-> holder of the lock
+     mon_safety                   the step by which a waiter returns r is justified (`verdict_justified`)
+     mon_cancelled_ended          Done RCancelled -> its context has ended
+     mon_already_true_no_block    a waiter holding the lock while P holds can only return ROk
+     mon_parked_not_enabled       Broadcast discipline: Parked/Parking on c -> wake predicate false   (every reachable state)
+     mon_pending_wake             the same in the disjunctive form of DESIGN 3.2 (`token c s`)
+     mon_no_lost_wakeup           quiescent corollary
+     mon_ctx_inv, mon_ctx_pending_wake_locked / _norace, mon_no_lost_cancel, mon_pending_wake_ctx
+                                  cancellation half, under `ctx_guard ok` (= helper_locked = true, or ok implies no_ctx_race)
+     mon_cascade_inv, mon_cascade_pending_wake, mon_no_lost_wakeup_cascade (+ _locked / _norace)
+                                  Signal discipline, under `ctx_guard ok`
+   Worked instance: Model/WaitGroupModel.v + Proofs/WaitGroup_monitor.v (Broadcast discipline, refutation of the
+   unguarded ctx half by an explicit schedule, and the Signal variant through the cascade theorem).  *)
 
 From Coq Require Import List Arith Lia Bool.
 Import ListNotations.
@@ -202,6 +213,17 @@ Inductive reach (ok : state -> label -> Prop) : state -> Prop :=
 
 Definition any_step (_ : state) (_ : label) : Prop := True.
 Definition reachable := reach any_step.
+
+(* the same with the schedule kept (most recent step first), for statements about histories *)
+Inductive run (ok : state -> label -> Prop) : list (state * label) -> state -> Prop :=
+| run_init : run ok [] init
+| run_step tr s l s' : run ok tr s -> ok s l -> step s l s' -> run ok ((s, l) :: tr) s'.
+
+Lemma run_reach ok tr s : run ok tr s -> reach ok s.
+Proof. intros H. induction H; [constructor|econstructor; eauto]. Qed.
+
+Lemma reach_run ok s : reach ok s -> exists tr, run ok tr s.
+Proof. intros H. induction H as [|s l s' _ [tr IH] Hok St]; [exists []; constructor|exists ((s, l) :: tr); econstructor; eauto]. Qed.
 
 (* the cancellation race: a context ending while its waiter is between the ctx check and cond.Wait's registration *)
 Definition no_ctx_race (s : state) (l : label) : Prop :=
@@ -479,11 +501,447 @@ Proof.
   - exfalso. apply N. symmetry. eauto.
   - right. rewrite upd_same. auto.
   - exfalso. apply N. symmetry. eauto.
-  - exfalso. apply N. symmetry. eauto.
-  - exfalso. apply N. symmetry. eauto.
-  - exfalso. apply N. symmetry. eauto.
-  - exfalso. apply N. symmetry. apply (mutex_two s); auto; [rewrite H|rewrite Hs]; reflexivity.
+  - left. auto.
   - left. split; auto. destruct (wake_all_cases c (thr s) t) as [E|(E & _)]; congruence.
 Qed.
 
+(* ============================================================ Broadcast discipline *)
+
+(* the critical sections that can change the data: effect bodies and the success parts of waiters *)
+Definition body_of (t : tid) (b : body) : Prop :=
+  prog t = OEffect b \/ exists w, prog t = OWaiter w /\ b = w_succ w.
+
+(* every body that turns the wake predicate of some waiter on c from false to true broadcasts c
+   in the same critical section *)
+Definition bcast_discipline (c : cond) : Prop :=
+  forall t b, body_of t b ->
+  forall d u w, prog u = OWaiter w -> w_cond w = c ->
+    w_wake w d = false -> w_wake w (fst (b d)) = true -> In (Broadcast c) (snd (b d)).
+
+Definition parked_inv (c : cond) (s : state) : Prop :=
+  forall t w, prog t = OWaiter w -> w_cond w = c ->
+    (thr s t = Parking \/ thr s t = Parked) -> w_wake w (dat s) = false.
+
+Lemma sigs_eq_pp sg th th' u :
+  sigs_steps sg th th' -> (th' u = Parking \/ th' u = Parked) -> th' u = th u.
+Proof. intros H. destruct (sigs_cases _ _ _ u H) as [->|[_ ->]]; auto. intros [?|?]; discriminate. Qed.
+
+Lemma wake_all_eq_pp c th u :
+  (wake_all c th u = Parking \/ wake_all c th u = Parked) -> wake_all c th u = th u.
+Proof. destruct (wake_all_cases c th u) as [->|(_ & _ & ->)]; auto. intros [?|?]; discriminate. Qed.
+
+(* the step of a body under the discipline keeps parked_inv *)
+Lemma body_keeps_parked c s t b bb d' sg th' :
+  bcast_discipline c -> mutex_inv s -> parked_inv c s ->
+  body_of t bb -> thr s t = InCrit b -> bb (dat s) = (d', sg) -> sigs_steps sg (thr s) th' ->
+  forall u w, u <> t -> prog u = OWaiter w -> w_cond w = c ->
+    (th' u = Parking \/ th' u = Parked) -> w_wake w d' = false.
+Proof.
+  intros D M IH Hb Hs Hd Hsg u w N Hp Hc Hu.
+  pose proof (sigs_eq_pp _ _ _ _ Hsg Hu) as E.
+  destruct Hu as [Hu|Hu].
+  - exfalso. apply N. apply (mutex_two s); auto; [rewrite <- E, Hu|rewrite Hs]; reflexivity.
+  - assert (F : w_wake w (dat s) = false) by (apply (IH u w); auto; right; congruence).
+    destruct (w_wake w d') eqn:G; auto. exfalso.
+    pose proof (D t bb Hb (dat s) u w Hp Hc F) as X. rewrite Hd in X. simpl in X.
+    eapply sigs_bcast; eauto. rewrite <- Hc. unfold cond_of. rewrite Hp. reflexivity.
+Qed.
+
+(* mon_parked_not_enabled (the strong form of the pending-wake invariant under the Broadcast discipline):
+   in EVERY reachable state (any number of threads, any schedule, quiescent or not) a thread that is parked
+   on c — or is about to park on c — has a false predicate and the container is not closed.  *)
+Theorem mon_parked_not_enabled ok c s : bcast_discipline c -> reach ok s -> parked_inv c s.
+Proof.
+  intros D R. induction R as [|s l s' R IH _ St]; [intros t w _ _ [H|H]; simpl in H; discriminate|].
+  pose proof (mon_mutex _ _ R) as M.
+  unfold parked_inv in *. inversion St; subst; simpl; intros u wu Hp Hc Hs;
+    try (destruct (Nat.eq_dec u t) as [->|N];
+         [rewrite upd_same in Hs; try (destruct Hs; discriminate)|rewrite upd_other in Hs by auto]); eauto.
+  - eapply (body_keeps_parked c s t b e); eauto. left; auto.
+  - eapply (body_keeps_parked c s t b (w_succ w)); eauto. right; eauto.
+  - same_prog. unfold w_wake. rewrite H1, H2. reflexivity.
+  - apply (IH u wu); auto. rewrite <- (wake_all_eq_pp _ _ _ Hs). auto.
+Qed.
+
+(* a wake-up for c is pending: a released helper has yet to broadcast c, or a thread already taken off c's wait
+   list (with a live helper, so that it will broadcast c when it leaves) has not yet re-checked *)
+Definition token (c : cond) (s : state) : Prop :=
+  In c (pendingB s) \/
+  exists t', cond_of t' = Some c /\ (thr s t' = Woken \/ thr s t' = InCrit false) /\ helper s t' = true.
+
+(* mon_pending_wake, in the form of DESIGN 3.2 (under the Broadcast discipline it follows from the stronger
+   mon_parked_not_enabled: the premise `parked with a true predicate` is never met) *)
+Theorem mon_pending_wake ok c s t w :
+  bcast_discipline c -> reach ok s -> prog t = OWaiter w -> w_cond w = c ->
+  thr s t = Parked -> w_wake w (dat s) = true -> token c s.
+Proof.
+  intros D R Hp Hc Hs Hw. exfalso.
+  pose proof (mon_parked_not_enabled ok c s D R t w Hp Hc (or_intror Hs)). congruence.
+Qed.
+
+(* quiescent: nothing can run any more (threads not yet invoked do not count) *)
+Definition quiescent (s : state) : Prop :=
+  lock s = None /\ pendingB s = [] /\ forall t, runnable (thr s t) = false.
+
+(* mon_no_lost_wakeup *)
+Theorem mon_no_lost_wakeup ok c s t w :
+  bcast_discipline c -> reach ok s -> quiescent s -> prog t = OWaiter w -> w_cond w = c ->
+  thr s t = Parked -> w_P w (dat s) = false /\ w_closed w (dat s) = false.
+Proof.
+  intros D R _ Hp Hc Hs.
+  pose proof (mon_parked_not_enabled ok c s D R t w Hp Hc (or_intror Hs)) as X.
+  unfold w_wake in X. apply orb_false_iff in X. exact X.
+Qed.
+
+(* ============================================================ cancellation (the ctx half) *)
+
+(* either the helper broadcasts under the lock, or the schedule never ends a context inside the window *)
+Definition ctx_guard (ok : state -> label -> Prop) : Prop :=
+  helper_locked = true \/ forall s l, ok s l -> no_ctx_race s l.
+
+Definition ctx_inv (s : state) : Prop :=
+  (forall t w, prog t = OWaiter w -> (thr s t = Parking \/ thr s t = Parked) -> ended s t = true ->
+     In (w_cond w) (pendingB s)) /\
+  (forall t, thr s t = Parking -> ended s t = true -> helper_locked = true).
+
+Lemma exit_pending_incl s t c x : In x (pendingB s) -> In x (exit_pending s t c).
+Proof. unfold exit_pending. destruct (helper s t); simpl; auto. Qed.
+
+Lemma mon_ctx_inv ok s : ctx_guard ok -> reach ok s -> ctx_inv s.
+Proof.
+  intros G R. induction R as [|s l s' R IH Hok St].
+  { split; [intros t w _ [H|H]|intros t H]; simpl in H; discriminate. }
+  pose proof (mon_mutex _ _ R) as M. pose proof (mon_helper_inv _ _ R) as K.
+  destruct IH as [J J2]. split.
+  - inversion St; subst; simpl; intros u wu Hp Hs He;
+      try (destruct (Nat.eq_dec u t) as [->|N];
+           [rewrite upd_same in Hs; try (destruct Hs; discriminate)|rewrite upd_other in Hs by auto]); eauto.
+    + destruct (w_eager w && ended s t); simpl; eauto.
+    + apply (J u wu); auto. rewrite <- (sigs_eq_pp _ _ _ _ H2 Hs). auto.
+    + apply exit_pending_incl. apply (J u wu); auto. rewrite <- (sigs_eq_pp _ _ _ _ H3 Hs). auto.
+    + apply exit_pending_incl. eauto.
+    + apply exit_pending_incl. eauto.
+    + congruence.
+    + (* ctx end *)
+      destruct (Nat.eq_dec u t) as [->|N].
+      * same_prog. rewrite (K t wu); simpl; auto. left. destruct Hs as [-> | ->]; reflexivity.
+      * rewrite upd_other in He by auto. destruct (helper s t); simpl; eauto.
+    + (* helper broadcast of c: a thread on c is no longer parked; one inside the window is impossible here *)
+      pose proof (wake_all_eq_pp _ _ _ Hs) as E. rewrite E in Hs.
+      destruct Hs as [Hs|Hs].
+      * exfalso. pose proof (J2 u Hs He) as HL. specialize (H0 HL).
+        assert (X : lock s = Some u) by (apply M; rewrite Hs; reflexivity). congruence.
+      * apply remove_one_other; [|apply (J u wu); auto].
+        intros Ec. apply (wake_all_on c (thr s) u); [unfold cond_of; rewrite Hp, Ec; reflexivity|congruence].
+  - inversion St; subst; simpl; intros u Hs He;
+      try (destruct (Nat.eq_dec u t) as [->|N];
+           [rewrite upd_same in Hs; try discriminate|rewrite upd_other in Hs by auto]); eauto.
+    + apply J2 with u; auto. eapply sigs_eq_parking; eauto.
+    + apply J2 with u; auto. eapply sigs_eq_parking; eauto.
+    + congruence.
+    + destruct G as [G|G]; auto. destruct (Nat.eq_dec u t) as [->|N].
+      * exfalso. apply (G _ _ Hok). exact Hs.
+      * rewrite upd_other in He by auto. eauto.
+    + apply J2 with u; auto. apply wake_all_eq_parking in Hs. auto.
+Qed.
+
+(* mon_ctx_pending_wake: a parked thread whose context has ended has a helper broadcast pending *)
+Theorem mon_ctx_pending_wake_locked s t w :
+  helper_locked = true -> reachable s -> prog t = OWaiter w -> thr s t = Parked -> ended s t = true ->
+  In (w_cond w) (pendingB s).
+Proof. intros HL R Hp Hs He. apply (proj1 (mon_ctx_inv any_step s (or_introl HL) R) t); auto. Qed.
+
+Theorem mon_ctx_pending_wake_norace s t w :
+  reach no_ctx_race s -> prog t = OWaiter w -> thr s t = Parked -> ended s t = true ->
+  In (w_cond w) (pendingB s).
+Proof. intros R Hp Hs He. apply (proj1 (mon_ctx_inv no_ctx_race s (or_intror (fun _ _ H => H)) R) t); auto. Qed.
+
+(* at quiescence no parked thread's context has ended *)
+Theorem mon_no_lost_cancel ok s t w :
+  ctx_guard ok -> reach ok s -> quiescent s -> prog t = OWaiter w -> thr s t = Parked -> ended s t = false.
+Proof.
+  intros G R (_ & Q & _) Hp Hs. destruct (ended s t) eqn:E; auto. exfalso.
+  pose proof (proj1 (mon_ctx_inv ok s G R) t w Hp (or_intror Hs) E) as X. rewrite Q in X. exact X.
+Qed.
+
+(* ============================================================ Signal / cascade discipline *)
+
+(* Signal c is enough for a body that enables the waiters on c PROVIDED all waiters on c wait for the same
+   change (one wake predicate W for all of them: whoever receives the single Signal can use it) and every
+   waiter that has been through the wait loop re-broadcasts c when it leaves (built into the model: the
+   deferred cancel() releases its helper).  *)
+Definition cascade_discipline (c : cond) (W : Data -> bool) : Prop :=
+  (forall t w, prog t = OWaiter w -> w_cond w = c -> forall d, w_wake w d = W d) /\
+  (forall t b, body_of t b -> forall d, W d = false -> W (fst (b d)) = true ->
+     In (Signal c) (snd (b d)) \/ In (Broadcast c) (snd (b d))).
+
+(* the invariant of DESIGN Appendix B item 2, generalised:  W d /\ (exists Parked on c) -> a wake for c is pending *)
+Definition cascade_inv (c : cond) (W : Data -> bool) (s : state) : Prop :=
+  W (dat s) = true -> (exists t, cond_of t = Some c /\ thr s t = Parked) -> token c s.
+
+Lemma cond_of_waiter t c : cond_of t = Some c -> exists w, prog t = OWaiter w /\ w_cond w = c.
+Proof. unfold cond_of. destruct (prog t) as [e|w]; [discriminate|]. intros E. inversion E. eauto. Qed.
+
+Lemma token_keep c s s' :
+  (In c (pendingB s) -> In c (pendingB s')) ->
+  (forall t', cond_of t' = Some c -> (thr s t' = Woken \/ thr s t' = InCrit false) -> helper s t' = true ->
+     In c (pendingB s') \/ ((thr s' t' = Woken \/ thr s' t' = InCrit false) /\ helper s' t' = true)) ->
+  token c s -> token c s'.
+Proof.
+  intros Hp Ht [H|(t' & Hc & Hs & Hh)]; [left; auto|].
+  destruct (Ht t' Hc Hs Hh) as [X|[X Y]]; [left; auto|right; eauto].
+Qed.
+
+Lemma sigs_eq_woken_or_crit sg th th' u :
+  sigs_steps sg th th' -> (th u = Woken \/ th u = InCrit false) -> th' u = th u.
+Proof. intros H. destruct (sigs_cases _ _ _ u H) as [->|[-> _]]; auto. intros [?|?]; discriminate. Qed.
+
+(* what a data-changing critical section of thread t leaves behind for cond c *)
+Lemma body_keeps_cascade c W s t b bb d' sg th' :
+  cascade_discipline c W -> mutex_inv s -> helper_inv s -> ctx_inv s -> cascade_inv c W s ->
+  body_of t bb -> thr s t = InCrit b -> bb (dat s) = (d', sg) -> sigs_steps sg (thr s) th' ->
+  W d' = true -> (exists u, u <> t /\ cond_of u = Some c /\ th' u = Parked) ->
+  In c (pendingB s) \/
+  (exists t', t' <> t /\ cond_of t' = Some c /\ th' t' = Woken /\ helper s t' = true) \/
+  (cond_of t = Some c /\ b = false /\ helper s t = true).
+Proof.
+  intros [U D] M K [J _] IH Hb Hs Hd Hsg HW (u & N & Hcu & Hpu).
+  assert (Hpu0 : thr s u = Parked).
+  { destruct (sigs_cases _ _ _ u Hsg) as [E|[E _]]; congruence. }
+  destruct (W (dat s)) eqn:HW0.
+  - (* W held before: the pending wake-up is still there *)
+    destruct (IH HW0 (ex_intro _ u (conj Hcu Hpu0))) as [X|(t' & Hc' & Hs' & Hh')]; [left; exact X|].
+    destruct (Nat.eq_dec t' t) as [->|N'].
+    + right; right. destruct Hs' as [Hs'|Hs']; [congruence|]. split; auto. split; auto. congruence.
+    + right; left. exists t'. repeat split; auto.
+      destruct Hs' as [Hs'|Hs'].
+      * rewrite (sigs_eq_woken_or_crit _ _ _ _ Hsg (or_introl Hs')). exact Hs'.
+      * exfalso. apply N'. apply (mutex_two s); auto; [rewrite Hs'|rewrite Hs]; reflexivity.
+  - (* W became true: the body signalled or broadcast c *)
+    pose proof (D t bb Hb (dat s) HW0) as X. rewrite Hd in X. simpl in X. specialize (X HW).
+    destruct X as [X|X].
+    + destruct (sigs_signal _ _ _ _ Hsg X) as [A|(v & Hcv & Hpv & Hwv)].
+      * exfalso. exact (A u Hcu Hpu).
+      * destruct (helper s v) eqn:Hh.
+        -- right; left. exists v. repeat split; auto. intros ->. congruence.
+        -- left. destruct (cond_of_waiter _ _ Hcv) as (wv & Hprog & Hcw). rewrite <- Hcw.
+           apply (J v wv); auto.
+           destruct (ended s v) eqn:He; auto.
+           rewrite (K v wv Hprog He) in Hh; [discriminate|]. left. rewrite Hpv. reflexivity.
+    + exfalso. exact (sigs_bcast _ _ _ _ _ Hsg X Hcu Hpu).
+Qed.
+
+Theorem mon_cascade_inv ok c W s :
+  ctx_guard ok -> cascade_discipline c W -> reach ok s -> cascade_inv c W s.
+Proof.
+  intros G CD R. induction R as [|s l s' R IH Hok St].
+  { intros _ (t & _ & H). simpl in H. discriminate. }
+  pose proof (mon_mutex _ _ R) as M. pose proof (mon_helper_inv _ _ R) as K.
+  pose proof (mon_parking_inv _ _ R) as P2. pose proof (mon_ctx_inv _ _ G R) as JJ.
+  pose proof CD as [U D].
+  unfold cascade_inv in *.
+  inversion St; subst; simpl; intros HW (u & Hcu & Hpu).
+  - (* invoke *)
+    assert (N : u <> t) by (intros ->; rewrite upd_same in Hpu; discriminate).
+    rewrite upd_other in Hpu by auto.
+    eapply token_keep; [| |apply IH; eauto]; simpl; auto.
+    intros t' _ Hs' Hh'. right. split; auto.
+    rewrite upd_other; auto. intros ->. destruct Hs'; congruence.
+  - (* acquire (effect) *)
+    assert (N : u <> t) by (intros ->; rewrite upd_same in Hpu; discriminate).
+    rewrite upd_other in Hpu by auto.
+    eapply token_keep; [| |apply IH; eauto]; simpl; auto.
+    intros t' _ Hs' Hh'. right. split; auto.
+    rewrite upd_other; auto. intros ->. destruct Hs'; congruence.
+  - (* acquire (waiter) *)
+    assert (N : u <> t) by (intros ->; rewrite upd_same in Hpu; discriminate).
+    rewrite upd_other in Hpu by auto.
+    eapply token_keep; [| |apply IH; eauto]; simpl.
+    + intros Hx. destruct (w_eager w && ended s t); simpl; auto.
+    + intros t' _ Hs' Hh'. right.
+      assert (N' : t' <> t) by (intros ->; destruct Hs'; congruence).
+      rewrite upd_other by auto. split; auto.
+      destruct (w_eager w && negb (ended s t)); [rewrite upd_other by auto|]; auto.
+  - (* re-acquire *)
+    assert (N : u <> t) by (intros ->; rewrite upd_same in Hpu; discriminate).
+    rewrite upd_other in Hpu by auto.
+    eapply token_keep; [| |apply IH; eauto]; simpl; auto.
+    intros t' _ Hs' Hh'. right. split; auto.
+    destruct (Nat.eq_dec t' t) as [->|N']; [rewrite upd_same; auto|rewrite upd_other; auto].
+  - (* effect body *)
+    assert (N : u <> t) by (intros ->; rewrite upd_same in Hpu; discriminate).
+    rewrite upd_other in Hpu by auto.
+    destruct (body_keeps_cascade c W s t b e d' sg th' CD M K JJ IH (or_introl H) H0 H1 H2 HW
+                (ex_intro _ u (conj N (conj Hcu Hpu)))) as [X|[(t' & N' & Hc' & Hs' & Hh')|(X & _)]].
+    + left. exact X.
+    + right. exists t'. simpl. rewrite upd_other by auto. auto.
+    + unfold cond_of in X. rewrite H in X. discriminate.
+  - (* waiter success body *)
+    assert (N : u <> t) by (intros ->; rewrite upd_same in Hpu; discriminate).
+    rewrite upd_other in Hpu by auto.
+    destruct (body_keeps_cascade c W s t b (w_succ w) d' sg th' CD M K JJ IH
+                (or_intror (ex_intro _ w (conj H eq_refl))) H0 H2 H3 HW
+                (ex_intro _ u (conj N (conj Hcu Hpu)))) as [X|[(t' & N' & Hc' & Hs' & Hh')|(X & _ & Hh)]].
+    + left. simpl. apply exit_pending_incl. exact X.
+    + right. exists t'. simpl. rewrite !upd_other by auto. auto.
+    + left. simpl. unfold exit_pending. rewrite Hh. unfold cond_of in X. rewrite H in X. inversion X. left. reflexivity.
+  - (* leaves: closed *)
+    assert (N : u <> t) by (intros ->; rewrite upd_same in Hpu; discriminate).
+    rewrite upd_other in Hpu by auto.
+    eapply token_keep; [| |apply IH; eauto]; simpl.
+    + apply exit_pending_incl.
+    + intros t' Hc' Hs' Hh'. destruct (Nat.eq_dec t' t) as [->|N'].
+      * left. unfold exit_pending. rewrite Hh'. unfold cond_of in Hc'. rewrite H in Hc'. inversion Hc'. left. reflexivity.
+      * right. rewrite !upd_other by auto. auto.
+  - (* leaves: cancelled *)
+    assert (N : u <> t) by (intros ->; rewrite upd_same in Hpu; discriminate).
+    rewrite upd_other in Hpu by auto.
+    eapply token_keep; [| |apply IH; eauto]; simpl.
+    + apply exit_pending_incl.
+    + intros t' Hc' Hs' Hh'. destruct (Nat.eq_dec t' t) as [->|N'].
+      * left. unfold exit_pending. rewrite Hh'. unfold cond_of in Hc'. rewrite H in Hc'. inversion Hc'. left. reflexivity.
+      * right. rewrite !upd_other by auto. auto.
+  - (* decides to park: its predicate is false, so if it is on c there is nothing to show *)
+    assert (N : u <> t) by (intros ->; rewrite upd_same in Hpu; discriminate).
+    rewrite upd_other in Hpu by auto.
+    eapply token_keep; [| |apply IH; eauto]; simpl; auto.
+    intros t' Hc' Hs' Hh'. destruct (Nat.eq_dec t' t) as [->|N'].
+    + exfalso. unfold cond_of in Hc'. rewrite H in Hc'. inversion Hc'.
+      pose proof (U t w H H5 (dat s)) as E. unfold w_wake in E. rewrite H1, H2 in E. simpl in E. congruence.
+    + right. rewrite upd_other by auto. split; auto.
+      destruct (b && negb (w_eager w)); [rewrite upd_other by auto|]; auto.
+  - (* park *)
+    destruct (Nat.eq_dec u t) as [->|N].
+    + exfalso. destruct (cond_of_waiter _ _ Hcu) as (w & Hprog & Hcw).
+      pose proof (P2 t w Hprog H) as E. rewrite (U t w Hprog Hcw) in E. congruence.
+    + rewrite upd_other in Hpu by auto.
+      eapply token_keep; [| |apply IH; eauto]; simpl; auto.
+      intros t' _ Hs' Hh'. right. split; auto.
+      rewrite upd_other; auto. intros ->. destruct Hs'; congruence.
+  - (* context ends *)
+    eapply token_keep; [| |apply IH; eauto]; simpl.
+    + intros Hx. destruct (helper s t); simpl; auto.
+    + intros t' Hc' Hs' Hh'. destruct (Nat.eq_dec t' t) as [->|N'].
+      * left. rewrite Hh'. unfold cond_of in Hc'. rewrite H in Hc'. inversion Hc'. left. reflexivity.
+      * right. rewrite upd_other by auto. auto.
+  - (* helper broadcast *)
+    destruct (Nat.eq_dec c0 c) as [->|Nc].
+    + exfalso. exact (wake_all_on c (thr s) u Hcu Hpu).
+    + assert (Hpu0 : thr s u = Parked).
+      { destruct (wake_all_cases c0 (thr s) u) as [E|(E & _)]; congruence. }
+      eapply token_keep; [| |apply IH; eauto]; simpl.
+      * apply remove_one_other; auto.
+      * intros t' _ Hs' Hh'. right. split; auto.
+        destruct (wake_all_cases c0 (thr s) t') as [E|(E & _)]; [rewrite E; auto|destruct Hs'; congruence].
+  - (* spurious wake-up *)
+    assert (N : u <> t) by (intros ->; rewrite upd_same in Hpu; discriminate).
+    rewrite upd_other in Hpu by auto.
+    eapply token_keep; [| |apply IH; eauto]; simpl; auto.
+    intros t' _ Hs' Hh'. right. split; auto.
+    rewrite upd_other; auto. intros ->. destruct Hs'; congruence.
+Qed.
+
+(* mon_cascade_pending_wake: in every reachable state of a guarded run, a thread parked on c whose wake predicate
+   holds has a wake-up for c pending *)
+Theorem mon_cascade_pending_wake ok c W s t w :
+  ctx_guard ok -> cascade_discipline c W -> reach ok s ->
+  prog t = OWaiter w -> w_cond w = c -> thr s t = Parked -> w_wake w (dat s) = true -> token c s.
+Proof.
+  intros G CD R Hp Hc Hs Hw. apply (mon_cascade_inv ok c W s G CD R).
+  - rewrite <- (proj1 CD t w Hp Hc). exact Hw.
+  - exists t. split; auto. unfold cond_of. rewrite Hp, Hc. reflexivity.
+Qed.
+
+Lemma quiescent_no_token c s : quiescent s -> ~ token c s.
+Proof.
+  intros (_ & Q & Rn) [H|(t' & _ & Hs & _)]; [rewrite Q in H; exact H|].
+  specialize (Rn t'). destruct Hs as [Hs|Hs]; rewrite Hs in Rn; discriminate.
+Qed.
+
+(* mon_no_lost_wakeup_cascade *)
+Theorem mon_no_lost_wakeup_cascade ok c W s t w :
+  ctx_guard ok -> cascade_discipline c W -> reach ok s -> quiescent s ->
+  prog t = OWaiter w -> w_cond w = c -> thr s t = Parked ->
+  w_P w (dat s) = false /\ w_closed w (dat s) = false.
+Proof.
+  intros G CD R Q Hp Hc Hs. apply orb_false_iff. fold (w_wake w (dat s)).
+  destruct (w_wake w (dat s)) eqn:E; auto. exfalso.
+  exact (quiescent_no_token c s Q (mon_cascade_pending_wake ok c W s t w G CD R Hp Hc Hs E)).
+Qed.
+
+Theorem mon_no_lost_wakeup_cascade_locked c W s t w :
+  helper_locked = true -> cascade_discipline c W -> reachable s -> quiescent s ->
+  prog t = OWaiter w -> w_cond w = c -> thr s t = Parked ->
+  w_P w (dat s) = false /\ w_closed w (dat s) = false.
+Proof. intros HL. apply mon_no_lost_wakeup_cascade. left; exact HL. Qed.
+
+Theorem mon_no_lost_wakeup_cascade_norace c W s t w :
+  cascade_discipline c W -> reach no_ctx_race s -> quiescent s ->
+  prog t = OWaiter w -> w_cond w = c -> thr s t = Parked ->
+  w_P w (dat s) = false /\ w_closed w (dat s) = false.
+Proof. apply mon_no_lost_wakeup_cascade. right; auto. Qed.
+
+(* mon_pending_wake with the ctx half (Broadcast discipline): parked with a true predicate, a closed container
+   or an ended context => a wake-up is pending *)
+Theorem mon_pending_wake_ctx ok c s t w :
+  ctx_guard ok -> bcast_discipline c -> reach ok s -> prog t = OWaiter w -> w_cond w = c ->
+  thr s t = Parked -> (w_wake w (dat s) = true \/ ended s t = true) -> token c s.
+Proof.
+  intros G D R Hp Hc Hs [Hw|He].
+  - eapply mon_pending_wake; eauto.
+  - left. rewrite <- Hc. apply (proj1 (mon_ctx_inv ok s G R) t w); auto.
+Qed.
+
 End Monitor.
+
+Arguments mkWaiter {Data}.
+Arguments OEffect {Data}.
+Arguments OWaiter {Data}.
+Arguments w_cond {Data}.
+Arguments w_P {Data}.
+Arguments w_closed {Data}.
+Arguments w_succ {Data}.
+Arguments w_eager {Data}.
+Arguments w_wake {Data}.
+Arguments dat {Data}.
+Arguments lock {Data}.
+Arguments thr {Data}.
+Arguments ended {Data}.
+Arguments helper {Data}.
+Arguments pendingB {Data}.
+Arguments mkState {Data}.
+Arguments quiescent {Data}.
+Arguments any_step {Data}.
+Arguments token {Data}.
+Arguments verdict_justified {Data}.
+Arguments no_ctx_race {Data}.
+
+(* ---- non-vacuity of the cascade discipline: the shape of pubsub.Queue's `nempty` cond.  Data = length; Add
+   signals cond 0 exactly when the queue was empty; every consumer waits for `0 < len` and takes one item. *)
+Module CascadeExample.
+  Definition q_add : body nat := fun n => (S n, if Nat.eqb n 0 then [Signal 0] else []).
+  Definition q_wait : waiter nat := mkWaiter 0 (fun n => negb (Nat.eqb n 0)) (fun _ => false) (fun n => (pred n, [])) true.
+  Definition q_prog (is_add : tid -> bool) : tid -> op nat := fun t => if is_add t then OEffect q_add else OWaiter q_wait.
+
+  Lemma q_cascade is_add : cascade_discipline nat (q_prog is_add) 0 (fun n => negb (Nat.eqb n 0)).
+  Proof.
+    split.
+    - intros t w H _ d. unfold q_prog in H. destruct (is_add t); inversion H; subst.
+      unfold w_wake. simpl. apply orb_false_r.
+    - intros t b Hb d Hf Ht. apply negb_false_iff in Hf. apply Nat.eqb_eq in Hf. subst d.
+      destruct Hb as [Hb|(w & Hb & ->)]; unfold q_prog in Hb; destruct (is_add t); inversion Hb; subst; simpl in *.
+      + left. left. reflexivity.
+      + discriminate.
+  Qed.
+
+  (* any number of producers and consumers, any schedule avoiding the cancellation window: at quiescence no consumer
+     is parked on a non-empty queue *)
+  Lemma q_no_lost_wakeup is_add s t :
+    reach nat (q_prog is_add) 0 false no_ctx_race s -> quiescent s -> is_add t = false -> thr s t = Parked -> dat s = 0.
+  Proof.
+    intros R Q Ha Hs.
+    assert (Hp : q_prog is_add t = OWaiter q_wait) by (unfold q_prog; rewrite Ha; reflexivity).
+    destruct (mon_no_lost_wakeup_cascade_norace nat _ 0 false 0 _ s t q_wait (q_cascade is_add) R Q Hp eq_refl Hs) as [X _].
+    simpl in X. apply negb_false_iff in X. apply Nat.eqb_eq in X. exact X.
+  Qed.
+End CascadeExample.
